@@ -25,6 +25,16 @@ func (u *Unit) subFact(t Term) {
 		root = inner[:k]
 	}
 	u.assume("(= (rootid " + t + ") (rootid " + root + "))")
+	// intermediate struct addresses on the way are rooted in the same object
+	mid := t
+	for strings.HasPrefix(mid, "(sub ") {
+		inner := mid[5 : len(mid)-1]
+		mid = inner[:strings.LastIndex(inner, " ")]
+		if strings.HasPrefix(mid, "(sub ") && !u.subFacts[mid] {
+			u.subFacts[mid] = true
+			u.assume("(= (rootid " + mid + ") (rootid " + root + "))")
+		}
+	}
 }
 
 // elemComp returns the element-array component for slices whose elements have Go type et (one array per element
@@ -143,6 +153,12 @@ func (u *Unit) havocAt(st *State, addr Term, t types.Type) {
 
 // loadPtr / storePtr / havocPtr access memory through a pointer value, which may be the address of a struct field.
 func (u *Unit) loadPtr(st *State, p Val, t types.Type) Term {
+	if p.FStruct != nil && u.sorts.structOf(p.FStruct).opaque {
+		// a field of a struct from a package that is not modelled structurally: unknown value
+		v := u.fresh("opq", u.sorts.sortOf(t))
+		u.typeFacts(st, v, t)
+		return v
+	}
 	if p.FStruct != nil && !isStructType(t) {
 		if u.sorts.sortOf(t) == SUnit {
 			return "unit"
@@ -153,6 +169,9 @@ func (u *Unit) loadPtr(st *State, p Val, t types.Type) Term {
 }
 
 func (u *Unit) storePtr(st *State, p Val, t types.Type, v Term) {
+	if p.FStruct != nil && u.sorts.structOf(p.FStruct).opaque {
+		return
+	}
 	if p.FStruct != nil && !isStructType(t) {
 		if u.sorts.sortOf(t) == SUnit {
 			return
@@ -165,6 +184,9 @@ func (u *Unit) storePtr(st *State, p Val, t types.Type, v Term) {
 }
 
 func (u *Unit) havocPtr(st *State, p Val, t types.Type) {
+	if p.FStruct != nil && u.sorts.structOf(p.FStruct).opaque {
+		return
+	}
 	if p.FStruct != nil && !isStructType(t) {
 		s := u.sorts.sortOf(t)
 		if s == SUnit {
